@@ -56,6 +56,7 @@ def parseTy : Nat → List String → Option (Ty × List String)
     | "I" => un .ptr
     | "W" => un .mset
     | "N" => bin .mmap
+    | "T" => bin .tagged
     | _ =>
       match num 'p', num 'A' with
       | some n, _ => some (.pod n, rest)
@@ -152,6 +153,16 @@ def parseVal (norm : Bool) : (ty : Ty) → List String → Option (Val ty × Lis
       | none => none)
     | [] => none
   | .arr t n, toks => parseN (parseVal norm t) n toks
+  | .tagged a b, toks => match toks with
+    | t :: r => (match tagged 'x' t with
+      | some tag => if tag.length != 4 then none else
+        (match parseVal norm a r with
+        | some (x, r1) => (match parseVal norm b r1 with
+          | some (y, r2) => some ((tag, x, y), r2)
+          | none => none)
+        | none => none)
+      | none => none)
+    | [] => none
   | .json, toks => match toks with
     | "ju" :: r => some ((C11.Value.undef : C11.Value Nat), r)
     | t :: r => (match tagged 'j' t with
@@ -176,6 +187,7 @@ def dumpVal : (ty : Ty) → Val ty → List String
   | .mset t, v => s!"n{v.length}" :: v.flatMap (dumpVal t)
   | .mmap k w, v => s!"n{v.length}" :: v.flatMap (fun x => dumpVal k x.1 ++ dumpVal w x.2)
   | .arr t _, v => v.flatMap (dumpVal t)
+  | .tagged a b, v => ("x" ++ rawHex v.1) :: (dumpVal a v.2.1 ++ dumpVal b v.2.2)
   | .json, v => match (v : C11.Value Nat) with
     | .undef => ["ju"]
     | w => ["j" ++ rawHex ((C11.save C11.F64.ops false w).getD [])]
@@ -244,6 +256,22 @@ def step (_ : Unit) (line : String) : Unit × String :=
           | some (a, r1) => (match parseVal true ty r1 with
             | some (b, []) => boolStr (lt ty a b)
             | _ => "bad-op")
+          | none => "bad-op"
+        else if op == "zow0" || op == "zow1" || op == "zow2" then
+          -- session: store_data(k,A)+save, next request store_data(k,B)+save, next request fetch_data: the object stored last
+          match parseVal true ty rest with
+          | some (a, r1) => (match parseVal true ty r1 with
+            | some (v, []) =>
+              if !(savable ty a && savable ty v) then "throw"
+              else (match loadArchive ty (save ty v) with
+                | .ok w _ => join (["ok"] ++ dumpVal ty w)
+                | .err e _ => errStr e)
+            | _ => "bad-op")
+          | none => "bad-op"
+        else if op == "cpo" then
+          -- an overwrite that cannot be allocated removes the key (C07 `miss_after_dropped_store`): the old object is gone
+          match parseValAll ty rest with
+          | some v => if savable ty v then "miss" else "throw"
           | none => "bad-op"
         else if op == "zsv" then
           -- session store_data, save(), next request load(), fetch_data: C06's `save_data` refuses values of
